@@ -131,14 +131,30 @@ pub fn replay(s: &mut Summary, v: &V) {
 
 /// random strings up to ~40 bytes, full forward / backward / (one-char) mixed histories
 pub fn record(rng: &mut SmallRng, n_events: usize, out: &mut dyn Write) {
-    let alpha: [&str; 9] = ["a", ",", "ñ", "b", "√", "\u{ffff}", "\u{7ff}", "\u{10ffff}", "\u{e000}"];
+    let alpha: [&str; 11] = ["a", ",", "ñ", "b", "√", "-", "`", "\u{ffff}", "\u{7ff}", "\u{10ffff}", "\u{e000}"];
     let delims: [&str; 13] = [",", "a", ",,", "a,", "ñ", "", "aa", "√", "aa,", "a,a", "aab", "\u{ffff}", ""];
+    // delimiters of 5..12 bytes (some with repeated bytes): skip-search territory
+    let long_delims: [&str; 6] = ["<sep>", "</td><td>", "abcabcab", "--->--->", "a,a,a,a,b", "ñ√ñ√ñ"];
     let mut left = n_events;
     while left > 0 {
         let n = rng.gen_range(0..=20);
         let k = rng.gen_range(2..=alpha.len());
-        let st: String = (0..n).map(|_| alpha[rng.gen_range(0..k)]).collect();
-        let d = delims[rng.gen_range(0..delims.len())];
+        let mut st: String = (0..n).map(|_| alpha[rng.gen_range(0..k)]).collect();
+        let mut d = delims[rng.gen_range(0..delims.len())];
+        if rng.gen_range(0..4) == 0 {
+            // a long delimiter: at the very start / end, between short pieces, and as a near miss
+            d = long_delims[rng.gen_range(0..long_delims.len())];
+            st.clear();
+            if rng.gen_bool(0.5) { st.push_str(d); }
+            for _ in 0..rng.gen_range(0..4) {
+                for _ in 0..rng.gen_range(0..4) { st.push_str(alpha[rng.gen_range(0..4)]); }
+                match rng.gen_range(0..4) {
+                    0 => { let cut = d.char_indices().nth(rng.gen_range(1..d.chars().count())).unwrap().0; st.push_str(&d[..cut]); }
+                    _ => st.push_str(d),
+                }
+            }
+            if rng.gen_bool(0.3) { st.push_str(alpha[rng.gen_range(0..4)]); }
+        }
         let kind = ["split", "split_terminator", "rsplit_terminator"][rng.gen_range(0..3)];
         let one_char = d.chars().count() == 1;
         let as_char = one_char && rng.gen_bool(0.5);
